@@ -27,6 +27,7 @@ class Built:
         self.fsm = {}  # fid -> (FSM object, [state names])
         self.branch = {}  # bid -> comb witness inside a condition() branch
         self.branch_run = {}  # bid -> run signal of the branch's own body
+        self.callobj = {}  # alias id -> object to call instead of the Method (one-element Methods collection)
 
 
 class GenModule(Elaboratable):
@@ -83,6 +84,7 @@ def build_program(prog) -> tuple[Elaboratable, Built]:
             ms = Methods(1, name=al["id"], i=tgt.layout_in, o=tgt.layout_out)
             ms.provide([tgt])
             b.methods[al["id"]] = ms[0]
+            b.callobj[al["id"]] = ms  # a one-element collection is called as an object: Methods.__call__
         else:
             am = Method(name=al["id"], i=tgt.layout_in, o=tgt.layout_out)
             am.provide(tgt)
@@ -183,7 +185,7 @@ class Emitter:
     # ---- calls ------------------------------------------------------------------------------
     def emit_C(self, n, din):
         m = self.m
-        meth = self.b.methods[n["m"]]
+        meth = self.b.callobj.get(n["m"], self.b.methods[n["m"]])
         tgt = self.target_def(n["m"])
         wc = Signal(name=f"{n['sid']}_wc")
         wa = Signal(name=f"{n['sid']}_wa")
